@@ -534,16 +534,18 @@ impl C10 {
         // (2) a rejected attempt leaves the later output unchanged
         if generator != f2.0 || signature != f2.1 || cost != f2.2 {
             let what = if generator != f2.0 { "generator" } else if signature != f2.1 { "signature" } else { "cost" };
-            // same tree, same length, same cost, only the choice of back-references differs?
+            // same decoded spends and same signature, only the serialisation (choice of
+            // back-references, and with it possibly the length and the byte cost) differs?
             let same_tree = signature == f2.1
-                && cost == f2.2
-                && generator.len() == f2.0.len()
                 && guard(|| decode_generator(&f2.0)).ok().and_then(Result::ok).map(|mut g| { g.sort(); g == got }).unwrap_or(false);
             if same_tree {
                 bail!(
-                    format!("rejected_attempt_changed_backreferences_only:{kind}"),
+                    format!("rejected_attempt_changed_serialisation_only:{kind}"),
                     step,
-                    format!("generator bytes differ between the builder that saw the failed attempts and the one that did not ({} bytes, cost {cost}, same decoded spends, same signature)", generator.len())
+                    format!(
+                        "the builder that saw the failed attempts emits {} bytes at cost {cost}, the one that did not {} bytes at cost {} (same decoded spends, same signature, different back-references)",
+                        generator.len(), f2.0.len(), f2.2
+                    )
                 );
             }
             bail!(
